@@ -104,6 +104,16 @@ def run(ctx):
                 for b in bl:
                     variants.append(("digits", "".join(b[int(ch)] if ch in "0123456789" else ch for ch in s)))
             cases.append({"s": s, "variants": variants, "kw": {"languages": langs} if langs else {}, "settings": {"RELATIVE_BASE": BASE}})
+        # ... and with date_formats whose reading differs from the default one: the rewritings must not decide WHICH
+        # parser (custom formats or the heuristic ones) gets to read the string
+        with_formats = [("03/12/2020", ["%d/%m/%Y"]), ("01.02.03", ["%y.%m.%d"]), ("2020-12-03 10:30", ["%Y-%d-%m %H:%M"]), ("12.03.2020", ["%m.%d.%Y"]),
+                        ("3 march 2015", ["%d %B %Y"]), ("10:30", ["%M:%H"]), ("05-06-07", ["%d-%m-%y", "%y-%m-%d"]), ("2015 03", ["%Y %d"]), ("11/12", ["%d/%m"]),
+                        ("5 mars 2015", ["%d %B %Y"])]
+        for s, fm in with_formats:
+            variants = ws_variants(s)
+            for b in blocks if not ctx.quick() else rng.sample(blocks, 3) + [b for b in blocks if b[0] in "٠０"]:
+                variants.append(("digits", "".join(b[int(ch)] if ch in "0123456789" else ch for ch in s)))
+            cases.append({"s": s, "variants": variants, "kw": {"languages": ["fr"] if "mars" in s else ["en"], "date_formats": fm}, "settings": {"RELATIVE_BASE": BASE}})
         for s, langs, parsers in special:
             variants = ws_variants(s)
             for b in blocks if not ctx.quick() else rng.sample(blocks, 4) + [b for b in blocks if b[0] in "٠۰０༠"]:
